@@ -57,7 +57,7 @@ pub fn plan<'a>(ctx: &'a Ctx, rng: &mut Rng, tier: Tier) -> Plan<'a> {
     match p {
         "C01" => {
             let pools = pools_for(ctx, rng, tier, &[("meta", gen::META), ("clusters", gen::CLUSTERS), ("ws", gen::WS), ("case", gen::CASE), ("lookalike", gen::LOOKALIKE), ("boundary", gen::BOUNDARY)]);
-            let flags = gen::pairwise_flags(rng, REGEX_FLAGS);
+            let flags = gen::flag_rows(rng, REGEX_FLAGS);
             let cases = cross_flags(rng, &pools.all(), &flags, 3);
             Plan {
                 cases,
@@ -236,7 +236,7 @@ pub fn plan<'a>(ctx: &'a Ctx, rng: &mut Rng, tier: Tier) -> Plan<'a> {
         }
         "C07" => {
             let pools = pools_for(ctx, rng, tier, &[("meta", gen::META), ("clusters", gen::CLUSTERS), ("ws", gen::WS), ("boundary", gen::BOUNDARY), ("colorish", gen::COLORISH), ("lookalike", gen::LOOKALIKE), ("case", gen::CASE)]);
-            let mut flags = gen::pairwise_flags(rng, ALL_FLAGS);
+            let mut flags = gen::flag_rows(rng, ALL_FLAGS);
             flags.push(mask(&[BIT_ESC, BIT_SUR, BIT_NO_START, BIT_NO_END]));
             flags.push(mask(&[BIT_ESC, BIT_SUR, BIT_NO_START, BIT_NO_END, BIT_COLOR, BIT_VERB]));
             flags.push(mask(&[BIT_COLOR, BIT_NO_START, BIT_NO_END]));
@@ -437,7 +437,7 @@ pub fn plan<'a>(ctx: &'a Ctx, rng: &mut Rng, tier: Tier) -> Plan<'a> {
         }
         "C15" => {
             let pools = pools_for(ctx, rng, tier, &[("colorish", gen::COLORISH), ("meta", gen::META), ("ws", gen::WS)]);
-            let flags = gen::pairwise_flags(rng, &[0, 2, 4, 5, 6, 7, 8, 9, 10, 11, 12, 13]);
+            let flags = gen::flag_rows(rng, &[0, 2, 4, 5, 6, 7, 8, 9, 10, 11, 12, 13]);
             let mut cases = cross_flags(rng, &pools.all(), &flags, 3);
             for c in cases.iter_mut() {
                 c.cfg = c.cfg.with(BIT_COLOR);
